@@ -5,11 +5,14 @@
 //@ extract REPLAY from algorithms/linfa-hierarchical/src/lib.rs anchor "let mut clusters = (0..num_observations)" until "// flatten resulting clusters and reverse index"
 //@ drop REPLAY from "let mut clusters = (0..num_observations)" through ".collect::<HashMap<_, _>>();" as "        let mut clusters = ClusterMap::singletons(num_observations);   /* (0..num_observations).map(|x| (x, vec![x])).collect::<HashMap<_, _>>() */"
 //@ rewrite REPLAY "for step in res.steps() {" => "let mut k_next: usize = 0; while k_next < res.len() /*INV*/ { let k = k_next; k_next += 1; let step = res.step(k);   /* for step in res.steps(), as a while loop (the body uses `break`) */"
-//@ rewrite REPLAY "Criterion::Distance(dis) => step.dissimilarity >= dis," => "Criterion::Distance(dis) => step.dissimilarity.ge_tok(dis),"
+//@ rewrite? REPLAY "step.dissimilarity >= dis" => "step.dissimilarity.ge_tok(dis)"
+//@ rewrite? REPLAY "step.dissimilarity > dis" => "step.dissimilarity.gt_tok(dis)"
+//@ rewrite? REPLAY "step.dissimilarity <= dis" => "step.dissimilarity.le_tok(dis)"
+//@ rewrite? REPLAY "step.dissimilarity < dis" => "step.dissimilarity.lt_tok(dis)"
 //@ rewrite REPLAY "let mut ids = Vec::with_capacity(2);" => "let mut ids = IdsTok::empty();"
 //@ rewrite REPLAY "clusters.remove(&step.cluster1).unwrap();" => "clusters.remove_tok(step.cluster1);"
 //@ rewrite REPLAY "clusters.remove(&step.cluster2).unwrap();" => "clusters.remove_tok(step.cluster2);"
-//@ rewrite REPLAY "/*INV*/" => "invariant_except_break num_observations == n0, res.n@ == n0, res.wf(), n0 <= usize::MAX / 2, ct == n0 + k_next, k_next <= res.merges@.len(), clusters.alive@ =~= alive_after(res.merges@, n0 as int, k_next as int), clusters.count@ == n0 - k_next, (self.stopping is NumClusters && k_next >= 1 ==> clusters.count@ >= self.stopping->NumClusters_0), ensures stopped_ok(clusters.count@, n0 as int, res, self.stopping), (exists|kk: int| 0 <= kk <= res.merges@.len() && clusters.alive@ =~= alive_after(res.merges@, n0 as int, kk) && clusters.count@ == n0 - kk), decreases res.merges@.len() - k_next,"
+//@ rewrite REPLAY "/*INV*/" => "invariant_except_break num_observations == n0, res.n@ == n0, res.wf(), n0 <= usize::MAX / 2, ct == n0 + k_next, k_next <= res.merges@.len(), clusters.alive@ =~= alive_after(res.merges@, n0 as int, k_next as int), clusters.count@ == n0 - k_next, (self.stopping is NumClusters && k_next >= 1 ==> clusters.count@ >= self.stopping->NumClusters_0), (self.stopping is Distance ==> forall|kk: int| 0 <= kk < k_next ==> !spec_ge(kk, self.stopping->Distance_0.id@)), ensures stopped_ok(clusters.count@, n0 as int, res, self.stopping), (exists|kk: int| 0 <= kk <= res.merges@.len() && clusters.alive@ =~= alive_after(res.merges@, n0 as int, kk) && clusters.count@ == n0 - kk), decreases res.merges@.len() - k_next,"
 //@ insert REPLAY after "let mut k_next: usize = 0; while k_next < res.len()" : proof { lemma_alive_step(res.merges@, n0 as int, k as int); lemma_alive_bound(res.merges@, n0 as int, k as int); assert(alive_after(res.merges@, res.n@, k as int).contains(res.merges@[k as int].0)); assert(alive_after(res.merges@, res.n@, k as int).contains(res.merges@[k as int].1) && res.merges@[k as int].0 != res.merges@[k as int].1); assert(clusters.alive@.contains(res.merges@[k as int].0) && clusters.alive@.contains(res.merges@[k as int].1)); }
 //@ expect-fail vacuity_guard_replay
 use vstd::prelude::*;
@@ -18,7 +21,13 @@ verus! {
 #[derive(Clone, Copy)]
 pub struct DisTok { pub id: Ghost<int> }
 pub uninterp spec fn spec_ge(a: int, b: int) -> bool;
-impl DisTok { #[verifier::external_body] pub fn ge_tok(self, o: DisTok) -> (r: bool) ensures r == spec_ge(self.id@, o.id@) { unimplemented!() } }
+pub uninterp spec fn spec_cmp(op: int, a: int, b: int) -> bool;      // the other three comparisons: nothing is known about them
+impl DisTok {
+    #[verifier::external_body] pub fn ge_tok(self, o: DisTok) -> (r: bool) ensures r == spec_ge(self.id@, o.id@) { unimplemented!() }
+    #[verifier::external_body] pub fn gt_tok(self, o: DisTok) -> (r: bool) ensures r == spec_cmp(1, self.id@, o.id@) { unimplemented!() }
+    #[verifier::external_body] pub fn le_tok(self, o: DisTok) -> (r: bool) ensures r == spec_cmp(2, self.id@, o.id@) { unimplemented!() }
+    #[verifier::external_body] pub fn lt_tok(self, o: DisTok) -> (r: bool) ensures r == spec_cmp(3, self.id@, o.id@) { unimplemented!() }
+}
 #[derive(Clone, Copy)]
 pub enum Criterion { NumClusters(usize), Distance(DisTok) }
 pub struct StepTok { pub cluster1: usize, pub cluster2: usize, pub dissimilarity: DisTok }
@@ -85,7 +94,8 @@ impl ClusterMap {
 pub open spec fn stopped_ok(count: int, n: int, res: &Dendrogram, crit: Criterion) -> bool {
     match crit {
         Criterion::NumClusters(m) => if n <= m { count == n } else if m >= 1 { count == m } else { count == 1 || n == 0 },
-        Criterion::Distance(d) => 1 <= n ==> 1 <= count <= n,
+        // every merge performed had a dissimilarity below the threshold, and the replay stopped at the FIRST step that reaches it (or after all steps)
+        Criterion::Distance(d) => (1 <= n ==> 1 <= count <= n) && (forall|kk: int| 0 <= kk < n - count ==> !spec_ge(kk, d.id@)) && (n - count < res.merges@.len() ==> spec_ge(n - count, d.id@)),
     }
 }
 pub struct ParamsV { pub stopping: Criterion }
